@@ -59,6 +59,8 @@ def main():
                         "bank_short_name": i.bank_short_name, "components": {c: getattr(i, c) for c in COMPONENTS},
                         "in_sepa_zone": i.spec.get("in_sepa_zone")}
             out.append(guard(f))
+        elif k == "from_bban":
+            out.append(guard(lambda: str(IBAN.from_bban(op["cc"], op["bban"]))))
         elif k == "generate":
             out.append(guard(lambda: str(IBAN.generate(op["cc"], bank_code=op["bank_code"], account_code=op["account_code"],
                                                        branch_code=op.get("branch_code", "")))))
